@@ -263,6 +263,13 @@ def signature(prog, f0, other_names=()):
             if any(LANE.search(a) for a in args):
                 continue
             k = "call %s" % nm
+            # a sibling backend function writing a digest: where the digest goes is part of what the caller does
+            # (`hash(end, ..)` computes a digest of `end.len()` bytes; `hash(&mut [0u8; 64], ..)` followed by a
+            # truncating copy is a different function of the input)
+            if nm in COMPARE and c.is_local and c.args and c.args[0].get("k") in ("copy", "move") and \
+                    f.locals[c.args[0]["l"]]["t"].replace("'_ ", "").startswith("&mut [u8"):
+                r_ = cm.view_info(f, c.args[0]["l"])[0]
+                k += "(digest -> %s)" % ("caller's buffer" if r_ is not None and 1 <= r_ <= f.argc else "local buffer")
             sig[k] += 1
             sites.setdefault(k, c.loc())
     return sig, sites
